@@ -615,12 +615,12 @@ def _array_map(eng, st, fr, t, args, dest, target):
     arr = eng.force(st, args[0])
     f = args[1]
     if arr[0] == 'array':
-        results = []
+        rroot = eng.temp(st, ('vec', ()))
 
         def on_item(st, v):
-            results.append(v)
+            st.mem[rroot] = ('vec', st.mem[rroot][1] + (v,))
             return None
-        return run_pipeline(eng, st, dest, target, list(arr[1]), [f], on_item, lambda: ('array', tuple(results)))
+        return run_pipeline(eng, st, dest, target, list(arr[1]), [f], on_item, lambda st_: ('array', st_.mem[rroot][1]))
     # symbolic array: the closure is applied to one generic element
     lid = ('array_map', fr.body.path, fr.block)
     by_ref = arr[0] == 'app' and arr[1] == 'each_ref'
@@ -664,6 +664,108 @@ def _iter_zip(eng, st, fr, t, args, dest, target):
         elif b[0] == 'ref':
             b = ('iter', 'seq', b)
     return ('iter', 'zip', a, b)
+
+
+@model('std::iter::Iterator::filter_map')
+def _iter_filter_map(eng, st, fr, t, args, dest, target):
+    return ('iter', 'op', eng.force(st, args[0]), 'filter_map', args[1])
+
+
+@model('std::iter::Iterator::flat_map')
+def _iter_flat_map(eng, st, fr, t, args, dest, target):
+    return ('iter', 'op', eng.force(st, args[0]), 'flat_map', args[1])
+
+
+@model('std::iter::Iterator::copied', 'std::iter::Iterator::cloned')
+def _iter_copied(eng, st, fr, t, args, dest, target):
+    return ('iter', 'op', eng.force(st, args[0]), 'copied', None)
+
+
+@model('std::iter::Iterator::for_each')
+def _iter_for_each(eng, st, fr, t, args, dest, target):
+    items, fns, base = iter_plan(eng, st, args[0])
+    if items is None:
+        raise Unmodelled('for_each over an unknown sequence')
+    return run_pipeline(eng, st, dest, target, items, fns + [args[1]], lambda st, v: None, lambda: UNIT)
+
+
+@model('std::iter::Iterator::find', 'std::iter::Iterator::position')
+def _iter_find(eng, st, fr, t, args, dest, target):
+    r, p = ptr_of(eng, st, args[0])
+    itv = eng.force(st, eng.load(st, r, p))
+    items, fns, base = iter_plan(eng, st, itv)
+    if items is None:
+        raise Unmodelled('find over an unknown sequence')
+    is_pos = t['callee']['decl'].endswith('position')
+    counter = [0]
+    # the predicate is the last stage; on_item sees the kept item
+    if is_pos:
+        idx_root = eng.temp(st, C('usize', 0))
+
+        def pred_stage_pos(st, val):
+            return None
+        # position: evaluate predicate per item, count items
+        def next_pos(st, i):
+            if i >= len(items):
+                eng.finish_call(st, st.frames[-1], dest, target, NONE)
+                return
+
+            def contp(st, fr2, dest_, target_, rv, i=i):
+                if eng.decide(st, rv):
+                    eng.finish_call(st, fr2, dest, target, SOME(C('usize', i)))
+                else:
+                    next_pos(st, i + 1)
+            if fns:
+                raise Unmodelled('position after adaptors')
+            eng.call_callable(st, args[1], [items[i]], ('seq', dest, target, contp))
+        next_pos(st, 0)
+        return DEFER
+    return run_pipeline(eng, st, dest, target, items, fns + [('filter', args[1])], lambda st, v: (SOME(v),), lambda: NONE)
+
+
+@model('std::iter::Iterator::count')
+def _iter_count(eng, st, fr, t, args, dest, target):
+    items, fns, base = iter_plan(eng, st, args[0])
+    if items is None:
+        return ('app', 'iter_count', (eng.purify(st, eng.force(st, args[0])),))
+    if not any(isinstance(f, tuple) and len(f) == 2 and f[0] in ('filter', 'filter_map', 'flat_map') for f in fns):
+        return C('usize', len(items))
+    croot = eng.temp(st, C('usize', 0))
+
+    def on_item(st, v):
+        st.mem[croot] = C('usize', cval(st.mem[croot]) + 1)
+        return None
+    return run_pipeline(eng, st, dest, target, items, fns, on_item, lambda st_: st_.mem[croot])
+
+
+@model('std::iter::Iterator::last')
+def _iter_last(eng, st, fr, t, args, dest, target):
+    items, fns, base = iter_plan(eng, st, args[0])
+    if items is None:
+        raise Unmodelled('last over an unknown sequence')
+    lroot = eng.temp(st, NONE)
+
+    def on_item(st, v):
+        st.mem[lroot] = SOME(v)
+        return None
+    return run_pipeline(eng, st, dest, target, items, fns, on_item, lambda st_: st_.mem[lroot])
+
+
+@model('std::iter::once')
+def _iter_once(eng, st, fr, t, args, dest, target):
+    return ('iter', 'val', ('vec', (args[0],)))
+
+
+@model('std::iter::Iterator::chain')
+def _iter_chain(eng, st, fr, t, args, dest, target):
+    ia, fa, _ = iter_plan(eng, st, args[0])
+    b = eng.force(st, args[1])
+    if b[0] in ('array', 'vec'):
+        b = ('iter', 'val', b)
+    ib, fb, _ = iter_plan(eng, st, b)
+    if ia is None or ib is None or fa or fb:
+        raise Unmodelled('chain of unknown or adapted sequences')
+    return ('iter', 'val', ('vec', tuple(ia) + tuple(ib)))
 
 
 @model('std::iter::from_fn')
@@ -775,7 +877,7 @@ def _iter_filter(eng, st, fr, t, args, dest, target):
     items, fns, base = iter_plan(eng, st, args[0])
     f = args[1]
     if items is None:
-        return ('iter', 'filter', eng.purify(st, eng.force(st, args[0])), f)
+        return ('iter', 'op', eng.force(st, args[0]), 'filter', f)
     kroot = eng.temp(st, ('vec', ()))      # kept items live in the state (a fork inside the predicate copies them)
 
     def next_item(st, i):
@@ -827,9 +929,10 @@ def _iter_any(eng, st, fr, t, args, dest, target):
             return _drive_any(eng, st, dest, target, args[1], items, 0, is_any)
     items2, fns2, _b = iter_plan(eng, st, it)
     if items2 is not None:
-        acc = []
+        aroot = eng.temp(st, ('vec', ()))
 
         def on_item(st, c):
+            acc = st.mem[aroot][1]
             if is_const(c):
                 if bool(cval(c)) == is_any:
                     out = cbool(is_any)
@@ -837,12 +940,12 @@ def _iter_any(eng, st, fr, t, args, dest, target):
                         out = ite(c2, cbool(is_any), out) if is_any else ite(c2, out, cbool(is_any))
                     return (out,)
                 return None
-            acc.append(c)
+            st.mem[aroot] = ('vec', acc + (c,))
             return None
 
-        def on_end():
+        def on_end(st_):
             out = cbool(not is_any)
-            for c2 in reversed(acc):
+            for c2 in reversed(st_.mem[aroot][1]):
                 out = ite(c2, cbool(is_any), out) if is_any else ite(c2, out, cbool(is_any))
             return out
         fclo = eng.force(st, args[1])
@@ -1359,8 +1462,11 @@ def iter_plan(eng, st, it):
     """(items | None, [closures to apply in order]) for an iterator value; items are the element values"""
     fns = []
     it = eng.force(st, it)
-    while isinstance(it, tuple) and it and it[0] == 'iter' and it[1] == 'mapped':
-        fns.insert(0, it[3])
+    while isinstance(it, tuple) and it and it[0] == 'iter' and it[1] in ('mapped', 'op'):
+        if it[1] == 'mapped':
+            fns.insert(0, it[3])
+        else:
+            fns.insert(0, (it[3], it[4]))      # ('filter' | 'filter_map' | 'flat_map' | 'copied', closure)
         it = eng.force(st, it[2])
     if not (isinstance(it, tuple) and it and it[0] == 'iter'):
         return None, fns, it
@@ -1384,12 +1490,19 @@ def iter_plan(eng, st, it):
     return None, fns, it
 
 
+def _takes_arg(f):
+    try:
+        return f.__code__.co_argcount >= 1
+    except AttributeError:
+        return False
+
+
 def run_pipeline(eng, st, dest, target, items, fns, on_item, on_end):
     """apply fns to every item (closures via continuations), feed the results to on_item(result) -> stop value | None,
     finally write on_end() to dest"""
     def next_item(st, i):
         if i >= len(items):
-            eng.finish_call(st, st.frames[-1], dest, target, on_end())
+            eng.finish_call(st, st.frames[-1], dest, target, on_end(st) if _takes_arg(on_end) else on_end())
             return
         apply_fn(st, i, 0, items[i])
 
@@ -1402,9 +1515,63 @@ def run_pipeline(eng, st, dest, target, items, fns, on_item, on_end):
             next_item(st, i + 1)
             return
 
+        op = fns[j]
+        if isinstance(op, tuple) and len(op) == 2 and op[0] in ('filter', 'filter_map', 'flat_map', 'copied'):
+            kind, f = op
+            if kind == 'copied':
+                v = eng.force(st, val)
+                n = 0
+                while isinstance(v, tuple) and v and v[0] == 'ref' and n < 3:
+                    v = eng.load(st, v[1], v[2])
+                    n += 1
+                apply_fn(st, i, j + 1, v)
+                return
+            if kind == 'filter':
+                ref = mk_ref(eng.temp(st, val), ())
+
+                def contf(st, fr2, dest_, target_, rv, i=i, j=j, val=val):
+                    if eng.decide(st, rv):
+                        apply_fn(st, i, j + 1, val)
+                    else:
+                        next_item(st, i + 1)
+                eng.call_callable(st, f, [ref], ('seq', dest, target, contf))
+                return
+
+            def contm(st, fr2, dest_, target_, rv, i=i, j=j, kind=kind):
+                # the closure's result is an Option / Result (0 or 1 item) or a known sequence
+                r = eng.force(st, rv)
+                if r[0] in ('array', 'vec'):
+                    sub = list(r[1])
+                elif r[0] == 'iter' and r[1] == 'val' and r[2][0] in ('array', 'vec'):
+                    sub = list(r[2][1])
+                else:
+                    vn, v = variant_of(eng, st, r, OPT if not (r[0] == 'enum' and r[2] in ('Ok', 'Err')) else RES)
+                    sub = [payload(eng, st, v, vn)] if vn in ('Some', 'Ok') else []
+
+                def feed(st, k):
+                    if k >= len(sub):
+                        next_item(st, i + 1)
+                        return
+                    # items after the first of a flat_map are fed in order; on_item decides whether to stop
+                    saved_next = None
+                    apply_rest(st, sub, k)
+
+                def apply_rest(st, sub, k):
+                    if k >= len(sub):
+                        next_item(st, i + 1)
+                        return
+                    if k == len(sub) - 1:
+                        apply_fn(st, i, j + 1, sub[k])
+                        return
+                    # more than one produced item: process them one after the other through the remaining stages
+                    raise Unmodelled('flat_map producing several items per element')
+                feed(st, 0)
+            eng.call_callable(st, f, [val], ('seq', dest, target, contm))
+            return
+
         def cont(st, fr2, dest_, target_, rv, i=i, j=j):
             apply_fn(st, i, j + 1, rv)
-        eng.call_callable(st, fns[j], [val], ('seq', dest, target, cont))
+        eng.call_callable(st, op, [val], ('seq', dest, target, cont))
     next_item(st, 0)
     return DEFER
 
@@ -1455,12 +1622,12 @@ def _collect_generic(eng, st, fr, t, args, dest, target, kind):
             eng.call_callable(st, fns[j], [val], ('seq', dest, target, cont))
         apply_sym(st, 0, ('iterval', lid, pit))
         return DEFER
-    results = []
+    rroot = eng.temp(st, ('vec', ()))      # collected items live in the state: a fork inside a stage copies them
 
     def on_item(st, v):
-        results.append(v)
+        st.mem[rroot] = ('vec', st.mem[rroot][1] + (v,))
         return None
-    return run_pipeline(eng, st, dest, target, items, fns, on_item, lambda: build_collection(kind, results, eng, st))
+    return run_pipeline(eng, st, dest, target, items, fns, on_item, lambda st_: build_collection(kind, list(st_.mem[rroot][1]), eng, st_))
 
 
 @model('std::iter::Iterator::collect')
